@@ -431,6 +431,7 @@ func c07big(variant, n int, seed int64, shape, n2 int) V {
 	switch variant {
 	case 0:
 		m := strmap.New[int]()
+		first0 := true
 		in = inst{
 			load: func(kk []string, asMap bool) bool {
 				vv := make([]int, len(kk))
@@ -442,7 +443,17 @@ func c07big(variant, n int, seed int64, shape, n2 int) V {
 					for i, k := range kk {
 						mp[k] = i
 					}
+					if first0 { // the first load goes through the one-step constructors
+						first0 = false
+						*m = *strmap.NewFromMap(mp)
+						return true
+					}
 					return m.LoadFromMap(mp) == nil
+				}
+				if first0 {
+					first0 = false
+					*m = *strmap.NewFromSlice(kk, vv)
+					return true
 				}
 				return m.LoadFromSlice(kk, vv) == nil
 			},
@@ -497,6 +508,7 @@ func c07big(variant, n int, seed int64, shape, n2 int) V {
 		}
 	default:
 		m := strmap.NewStr2Str()
+		first2 := true
 		var cur []string
 		in = inst{
 			load: func(kk []string, asMap bool) bool {
@@ -510,7 +522,17 @@ func c07big(variant, n int, seed int64, shape, n2 int) V {
 					for i, k := range kk {
 						mp[k] = vv[i]
 					}
+					if first2 {
+						first2 = false
+						*m = *strmap.NewStr2StrFromMap(mp)
+						return true
+					}
 					return m.LoadFromMap(mp) == nil
+				}
+				if first2 {
+					first2 = false
+					*m = *strmap.NewStr2StrFromSlice(kk, vv)
+					return true
 				}
 				return m.LoadFromSlice(kk, vv) == nil
 			},
